@@ -129,7 +129,22 @@ class ExprMixin:
         raise Unsupported("subscript of %r" % (o,))
 
     def load_slice(self, st, o, sl):
-        raise Unsupported("slice")
+        """seq[a:b] with constant non-negative bounds (or none), no step: a fresh list."""
+        def const(n, default):
+            if n is None:
+                return default
+            if isinstance(n, ast.Constant) and isinstance(n.value, int) and n.value >= 0:
+                return n.value
+            raise Unsupported("slice bound %s" % ast.unparse(n))
+        if sl.step is not None or o.kind != "ref":
+            raise Unsupported("slice with a step / of %r" % (o,))
+        seq = st.get("list", o.t)
+        lo = const(sl.lower, 0)
+        hi = const(sl.upper, None)
+        n = z3.Length(seq)
+        hi_t = n if hi is None else z3.If(n < hi, n, z3.IntVal(hi))
+        lo_t = z3.If(n < lo, n, z3.IntVal(lo))
+        return [(st, self.new_list(st, z3.SubSeq(seq, lo_t, z3.If(hi_t - lo_t < 0, 0, hi_t - lo_t))))]
 
     # -- displays ----------------------------------------------------------------------------------------
     def e_List(self, st, node):
@@ -251,6 +266,8 @@ class ExprMixin:
                 eq = z3.BoolVal(False)
             else:
                 eq = z3.And([self.to_ref(st, x) == self.to_ref(st, y) for x, y in zip(a.py, b.py)] + [z3.BoolVal(True)])
+        elif a.kind == "ref" and b.kind == "ref" and a.py == "list" and b.py == "list" and isinstance(op, (ast.Eq, ast.NotEq)):
+            eq = st.get("list", a.t) == st.get("list", b.t)  # == on lists of canonical values is element-wise
         else:
             h = self.registry.eq_hook(self, st, a, b)
             eq = h if h is not None else self.to_ref(st, a) == self.to_ref(st, b)
